@@ -3,7 +3,7 @@ import ast
 
 from ..core import AnalysisError, norm_stmt
 from ..rules import (Fn, guards, guard_dominates, names_in, strings_in, kwarg, is_none_test,
-                     inventory, subscript_stores, always_raises, raised_types)
+                     inventory, subscript_stores, always_raises, raised_types, if_chain, block_of)
 from ..cfg import target_names, root_name
 from .. import sym
 from ..sym import dotted
@@ -217,17 +217,15 @@ def decode_inventory(cx):
     chain = [st for st in fn.ast.body if isinstance(st, ast.If) and 'datatype' in names_in(st.test)]
     ok = len(chain) == 1
     if ok:
-        c = chain[0]
-        tests = [sym.norm(c.test)]
-        cur = c
-        bodies = [c.body]
-        while len(cur.orelse) == 1 and isinstance(cur.orelse[0], ast.If):
-            cur = cur.orelse[0]
-            tests.append(sym.norm(cur.test))
-            bodies.append(cur.body)
+        blk, i = block_of(fn, chain[0])
+        links, els = if_chain(blk, i)
+        tests = [sym.norm(t) for t, b, s_ in links]
+        bodies = [b for t, b, s_ in links]
+        # the statements after the chain (the final `return`) are not part of the else branch
+        els = [x for x in els if not isinstance(x, ast.Return)]
         ok = tests == [sym.norm("datatype == 'I'"), sym.norm("datatype in ('F', 'D')"), sym.norm("datatype == 'A'")] \
             and always_raises(bodies[2]) and 'NotImplementedError' in raised_types(bodies[2]) \
-            and always_raises(cur.orelse) and 'ValueError' in raised_types(cur.orelse)
+            and always_raises(els) and 'ValueError' in raised_types(els)
     fn.ob('GUARD', 'data type dispatch: I, F/D decoded; A refused (NotImplementedError); anything else refused (ValueError)', ok,
           chain[0] if chain else fn.ast, key='dispatch')
     # range mask only for integers and only when ranges are given
@@ -513,9 +511,14 @@ def tokenizer(cx):
     # rolled-off branches: odd leading run raises too
     ne = b.get('NE')
     if ne:
-        ev = [st for st in fn.stmts(ast.If) if sym.norm(st.test) == sym.norm('%s %% 2 == 0' % ne[1])]
-        ok = len(ev) == 1 and always_raises(ev[0].body) and always_raises(ev[0].orelse)
-        fn.ob('EXITS', 'a keyword starting with the delimiter is refused for even and odd runs alike', ok, ev[0] if ev else fn.ast,
+        one0 = [st for st in fn.stmts(ast.If) if sym.norm(st.test) == sym.norm('%s == 1' % ne[1])]
+        ok = len(one0) == 1
+        if ok:
+            blk, i = block_of(fn, one0[0])
+            links, els = if_chain(blk, i)
+            tests = [sym.norm(t) for t, b, s_ in links]
+            ok = tests == [sym.norm('%s == 1' % ne[1]), sym.norm('%s %% 2 == 0' % ne[1])] and always_raises(links[1][1]) and always_raises(els)
+        fn.ob('EXITS', 'a keyword starting with the delimiter is refused for even and odd runs alike', ok, one0[0] if one0 else fn.ast,
               key='leading-run')
         one = [st for st in fn.stmts(ast.If) if sym.norm(st.test) == sym.norm('%s == 1' % ne[1])]
         ok = len(one) == 1 and len(one[0].body) == 1 and isinstance(one[0].body[0], ast.Break)
